@@ -111,9 +111,13 @@ def animate_unit(cached, pil_source):
         def cl_set(e, s, recv, a, k):
             i = idx(e, s, a[0])
             tup = a[1]
-            if not (isinstance(tup, tuple) and len(tup) == 2 and isinstance(tup[0], Rec) and tup[0].name == "text" and is_sym(tup[1])):
+            if not (isinstance(tup, tuple) and len(tup) == 2 and isinstance(tup[0], Rec) and tup[0].name == "text" and (is_sym(tup[1]) or tup[1] is None)):
                 raise Unsupported("cache entry shape")
             c = s.H(recv)
+            if tup[1] is None:
+                # (frame, None): an entry whose stored hash equals no size - it can never be served, which is what `none` says
+                c["none"] = z3.Store(c["none"], i, True)
+                return [(None, s)]
             c["f"], c["h"], c["none"] = z3.Store(c["f"], i, tup[0].f["id"]), z3.Store(c["h"], i, tup[1]), z3.Store(c["none"], i, False)
             return [(None, s)]
         eng.methods.update({("cachelist", "__getitem__"): cl_get, ("cachelist", "__setitem__"): cl_set,
